@@ -107,6 +107,15 @@ def check(facts, rep, tier, cfg):
         else:
             rep.bad("C15.R2", "bind-request-carries-frame", where, "BindRequest built from flow_id=%s payload=%s" % (sorted(fid), sorted(pl)))
     # ---- R3
+    # the healthy connection dispatches Bind frames (ignore_bind = false in the receive loop, true only in the wind-down)
+    sub8 = type(rep)(rep.prop, rep.tier, rep.config)
+    rules_c08.check(facts, sub8, tier, cfg)
+    for i8 in sub8.instances:
+        if i8["key"].startswith("ignore-bind/"):
+            rep.ok("C15.R2", i8["key"], i8["where"], i8["detail"], nontrivial=False)
+    for v8 in sub8.violations:
+        if "/ignore-bind/" in v8["key"]:
+            rep.bad("C15.R2", v8["key"].split("/", 1)[1], v8["where"], v8["msg"])
     rep.rule("C15.R3", "exactly one reply frame per BindRequest: Drop's reply is guarded by 'not yet replied' or reply consumes self")
     reply_bodies = []
     for b in crate.bodies:
